@@ -452,6 +452,54 @@ func c19(args []string) {
 				return nil
 			}})
 	}
+	// ---- combinators feeding one process that takes one value from every port per task (more tuples than buffer slots)
+	for _, param := range []bool{true, false} {
+		for _, b := range []int{1, 3} {
+			la, lb := 3, 4
+			s := &spec.Spec{Name: "combconsumer", MaxTasks: 4, Sources: map[string]string{}}
+			comb := &spec.Proc{Name: "CB", Kind: spec.KFileComb, Ports: []string{"a", "b"}}
+			var cons *spec.Proc
+			if param {
+				comb.Kind = spec.KParamComb
+				var va, vb []string
+				for i := 0; i < la; i++ {
+					va = append(va, fmt.Sprintf("a%d", i))
+				}
+				for i := 0; i < lb; i++ {
+					vb = append(vb, fmt.Sprintf("b%d", i))
+				}
+				s.Procs = append(s.Procs, &spec.Proc{Name: "SA", Kind: spec.KParamSource, Values: va}, &spec.Proc{Name: "SB", Kind: spec.KParamSource, Values: vb})
+				cons = &spec.Proc{Name: "use", Kind: spec.KCmd, Cmd: spec.BuildCmd("use", nil, []spec.PortDecl{{Name: "out"}}, []string{"a", "b"}, nil, nil), Outs: []*spec.Out{{Port: "out", Pattern: "use_{p:a}_{p:b}.out"}}}
+			} else {
+				for _, pt := range []string{"A", "B"} {
+					src := &spec.Proc{Name: "S" + pt, Kind: spec.KFileSource}
+					n := map[string]int{"A": la, "B": lb}[pt]
+					for i := 0; i < n; i++ {
+						f := fmt.Sprintf("cc_%s%d.txt", pt, i)
+						src.Files = append(src.Files, f)
+						s.Sources[f] = f
+					}
+					s.Procs = append(s.Procs, src)
+				}
+				cons = &spec.Proc{Name: "use", Kind: spec.KCmd, Cmd: spec.BuildCmd("use", []spec.PortDecl{{Name: "a"}, {Name: "b"}}, []spec.PortDecl{{Name: "out"}}, nil, nil, nil)}
+			}
+			s.Procs = append(s.Procs, comb, cons)
+			s.Conns = append(s.Conns, &spec.Conn{From: "SA.out", To: "CB.a", Param: param}, &spec.Conn{From: "SB.out", To: "CB.b", Param: param},
+				&spec.Conn{From: "CB.a", To: "use.a", Param: param}, &spec.Conn{From: "CB.b", To: "use.b", Param: param})
+			name := "FileCombinator"
+			if param {
+				name = "ParamCombinator"
+			}
+			want := la * lb
+			jobs = append(jobs, &c19Job{name: name, s: s, cfg: Cfg{Buf: b, Procs: 2, SoftSec: 8}, label: fmt.Sprintf("3x4 tuples consumed by one process, buffer %d", b),
+				oracle: func(res *run.Result, ti *mon.TraceIndex, exp *ref.Result) []mon.Problem {
+					if len(ti.Starts) != want {
+						return []mon.Problem{{Sig: "combinator-not-cartesian-product", Msg: fmt.Sprintf("the consuming process ran %d distinct tasks, the product has %d tuples", len(ti.Starts), want)}}
+					}
+					return nil
+				}})
+		}
+	}
 	// ---- dependent globber: globs only after the whole dependency stream has passed
 	for _, n := range []int{1, 2, 6} {
 		for rep := 0; rep < c.Pick(2, 6); rep++ {
